@@ -26,6 +26,8 @@ def gen_dir(rng):
     files["empty_dest.zo"] = "# Header only\n"
     files["sections_dest.zo"] = "# Sections\n\n- 240302#00 top note\n\n" + "#" * 32 + " First\n\n- 240302#01 in first\n\n" + "=" * 24 + " Sub\n\no 240302#02 in sub\n"
     files["tmpl/new.zot"] = TEMPLATE
+    # a destination that MENTIONS the ZID of a note that will be moved there (a mention is not the note)
+    files["mention_dest.zo"] = "# Mentions\n\n- 240302#10 follow up on 240301#F1 once it is done\n- 240302#11 unrelated\n\n"
     # in every directory: a note whose own tags merely START like the tags it inherits (+p10 / +p1 ...), below an earlier
     # note whose three-character ZID extends its two-character one
     files["fixed.zo"] = ("# Fixed page +p1\n\n" + "#" * 32 + " Sec @work %bob #a\n\n- 240301#F1x extended zid earlier note\n"
@@ -233,7 +235,8 @@ def run(oc, tier, seed):
             dests = ["alpha", "beta.zo", "sub/gamma", "empty_dest", "no_newline", "sections_dest", "new/created", "missing/nowhere"]
             search_budget = 40
             forced = [("240301#F1", "sections_dest", None), ("240301#F1", "new/created", "x"), ("240301#F1", "empty_dest", "~"),
-                      ("240301#F2", "sections_dest", None), ("240301#F2", "empty_dest", "x")]
+                      ("240301#F2", "sections_dest", None), ("240301#F2", "empty_dest", "x"),
+                      ("240301#F1", "mention_dest", None), ("240301#F1", "fixed", "x"), ("240301#F2", "fixed", None)]
             for mv in range(n_moves):
                 z = forced[mv][0] if mv < len(forced) else rng.choice(zids)
                 info = note_info(d, z)
